@@ -664,6 +664,86 @@ Proof.
   destruct d; constructor; simpl; assumption.
 Qed.
 
+(* in-place edits keep the stored values pairwise distinct *)
+Lemma del_snd_incl {B} k (l : list (string * B)) x : In x (map snd (del String.eqb k l)) -> In x (map snd l).
+Proof.
+  induction l as [|[k' v'] r IH]; simpl; [tauto|].
+  destruct (String.eqb k k'); simpl; [intros H; right; exact (IH H)|intros [H|H]; [now left|right; exact (IH H)]].
+Qed.
+
+Lemma del_snd_nodup {B} k (l : list (string * B)) : NoDup (map snd l) -> NoDup (map snd (del String.eqb k l)).
+Proof.
+  induction l as [|[k' v'] r IH]; simpl; [constructor|]. intros Hn. inversion Hn as [|? ? Hx Hr]; subst.
+  destruct (String.eqb k k'); simpl; [exact (IH Hr)|]. constructor; [|exact (IH Hr)].
+  intros Hi. apply Hx. exact (del_snd_incl _ _ _ Hi).
+Qed.
+
+Lemma put_at_snd_in l k v x : In x (map snd (put_at l k v)) -> x = v \/ In x (map snd l).
+Proof.
+  induction l as [|[k' v'] r IH]; simpl; [intros [H|[]]; now left|].
+  destruct (String.eqb k k'); simpl.
+  - intros [H|H]; [now left|right; right; exact (del_snd_incl _ _ _ H)].
+  - intros [H|H]; [right; now left|]. destruct (IH H) as [E|E]; [now left|right; now right].
+Qed.
+
+Lemma memb_mval v l : memb mval_eqb v l = true <-> In v l.
+Proof.
+  induction l as [|y r IH]; simpl; [split; [discriminate|tauto]|].
+  rewrite orb_true_iff, IH, mval_eqb_eq. split; intros [H|H]; auto.
+Qed.
+
+Lemma put_at_nodup l k v :
+  NoDup (map snd l) -> ~ In v (map snd (del String.eqb k l)) -> NoDup (map snd (put_at l k v)).
+Proof.
+  induction l as [|[k' v'] r IH]; simpl; intros Hn Hv; [constructor; [tauto|constructor]|].
+  inversion Hn as [|? ? Hx Hr]; subst. destruct (String.eqb k k') eqn:E; simpl in *.
+  - constructor; [exact Hv|now apply del_snd_nodup].
+  - constructor; [|apply IH; [exact Hr|tauto]].
+    intros Hi. apply put_at_snd_in in Hi as [->|Hi]; [apply Hv; now left|tauto].
+Qed.
+
+Lemma put_ok l k v l' : NoDup (map snd l) -> put l k v = inl l' -> NoDup (map snd l').
+Proof.
+  unfold put. destruct (memb mval_eqb v (map snd (del String.eqb k l))) eqn:E; [discriminate|].
+  intros Hn [= <-]. apply put_at_nodup; [exact Hn|]. intros Hi. apply memb_mval in Hi. congruence.
+Qed.
+
+Lemma put_all_ok ps : forall l l', NoDup (map snd l) -> put_all l ps = inl l' -> NoDup (map snd l').
+Proof.
+  induction ps as [|[k v] r IH]; intros l l' Hn; simpl; [now intros [= <-]|].
+  destruct (put l k (mv k v)) as [l1|b] eqn:E; [|discriminate]. apply IH. exact (put_ok _ _ _ _ Hn E).
+Qed.
+
+Lemma set_kmap_wfs st d km : wfs st -> map_ok km -> wfs (set_kmap st d km).
+Proof. intros [H1 H2 H3 H4 H5 H6] Hk. destruct d; constructor; simpl; assumption. Qed.
+
+Lemma kmap_of_ok st d : wfs st -> map_ok (kmap_of st d).
+Proof. intros W. destruct d; [apply (wf_im _ W)|apply (wf_om _ W)]. Qed.
+
+Lemma map_setitem_wfs st d k v : wfs st -> wfs (fst (map_setitem st d k v)).
+Proof.
+  intros W. unfold map_setitem. pose proof (kmap_of_ok st d W) as Hm.
+  destruct (kmap_of st d) as [l|]; [|exact W].
+  destruct (put l k (mv k v)) as [l'|b] eqn:E; [|exact W]. simpl.
+  apply set_kmap_wfs; [exact W|]. exact (put_ok _ _ _ _ Hm E).
+Qed.
+
+Lemma map_delitem_wfs st d k : wfs st -> wfs (fst (map_delitem st d k)).
+Proof.
+  intros W. unfold map_delitem. pose proof (kmap_of_ok st d W) as Hm.
+  destruct (kmap_of st d) as [l|]; [|exact W].
+  destruct (mems k (map fst l)); [|exact W]. simpl.
+  apply set_kmap_wfs; [exact W|]. now apply del_snd_nodup.
+Qed.
+
+Lemma map_update_wfs st d ps : wfs st -> wfs (fst (map_update st d ps)).
+Proof.
+  intros W. unfold map_update. pose proof (kmap_of_ok st d W) as Hm.
+  destruct (kmap_of st d) as [l|]; [|exact W].
+  destruct (put_all l ps) as [l'|b] eqn:E; [|exact W]. simpl.
+  apply set_kmap_wfs; [exact W|]. exact (put_all_ok _ _ _ Hm E).
+Qed.
+
 Lemma connect_ids_struct st i o : same_struct st (connect_ids st i o).
 Proof. unfold connect_ids. destruct (memb pair_eqb (i, o) (w_conns st)); repeat split. Qed.
 
@@ -686,9 +766,8 @@ Proof.
   destruct (match w_cache st1 with Some c => dict_eqb (value_dict st1 p) c | None => false end).
   - destruct (build_io st1 DOut); exact G1.
   - pose proof (execute_graph st1) as G2.
-    destruct (build_io (execute st1) DOut); simpl.
-    + eapply same_graph_trans; [exact G1|]. eapply same_graph_trans; [exact G2|]. repeat split.
-    + eapply same_graph_trans; eauto.
+    destruct (build_io (execute st1) DOut); simpl;
+      (eapply same_graph_trans; [exact G1|]; eapply same_graph_trans; [exact G2|]; repeat split).
 Qed.
 
 Lemma step_wfs st o : wfs st -> wfs (fst (step st o)).
@@ -713,6 +792,9 @@ Proof.
   - now apply readd_wfs.
   - now apply relabel_child_wfs.
   - now apply replace_child_wfs.
+  - now apply map_setitem_wfs.
+  - now apply map_delitem_wfs.
+  - now apply map_update_wfs.
 Qed.
 
 Lemma run_ops_wfs ops : forall st, wfs st -> wfs (run_ops st ops).
@@ -1147,4 +1229,84 @@ Proof.
   - rewrite (build_io_same _ _ DOut G1). destruct (build_io st DOut) as [po|]; [|tauto]. eauto.
   - rewrite (build_io_same _ _ DOut (same_graph_trans _ _ _ G1 (execute_graph st1))).
     destruct (build_io st DOut) as [po|]; [|tauto]. eauto.
+Qed.
+
+(* ---- in-place edits of a stored map ---------------------------------------------------------------- *)
+Lemma del_in {B} k (l : list (string * B)) k' v :
+  In (k', v) (del String.eqb k l) <-> In (k', v) l /\ k' <> k.
+Proof.
+  induction l as [|[k0 v0] r IH]; simpl; [tauto|].
+  destruct (String.eqb k k0) eqn:E.
+  - apply String.eqb_eq in E. subst k0. rewrite IH. split; [tauto|].
+    intros [[H|H] Hn]; [inversion H; subst; tauto|tauto].
+  - apply String.eqb_neq in E. simpl. rewrite IH. split.
+    + intros [H|H]; [inversion H; subst; split; [now left|congruence]|tauto].
+    + tauto.
+Qed.
+
+Lemma assoc_del_other {B} k k' (l : list (string * B)) :
+  k' <> k -> assoc String.eqb k' (del String.eqb k l) = assoc String.eqb k' l.
+Proof.
+  intros Hn. induction l as [|[k0 v0] r IH]; simpl; [reflexivity|].
+  destruct (String.eqb k k0) eqn:E.
+  - apply String.eqb_eq in E. subst k0. destruct (String.eqb k' k) eqn:E'; [apply String.eqb_eq in E'; tauto|exact IH].
+  - simpl. destruct (String.eqb k' k0); [reflexivity|exact IH].
+Qed.
+
+Lemma assoc_put_at_same l k v : assoc String.eqb k (put_at l k v) = Some v.
+Proof.
+  induction l as [|[k0 v0] r IH]; simpl; [now rewrite String.eqb_refl|].
+  destruct (String.eqb k k0) eqn:E; simpl; [now rewrite String.eqb_refl|now rewrite E].
+Qed.
+
+Lemma assoc_put_at_other l k k' v : k' <> k -> assoc String.eqb k' (put_at l k v) = assoc String.eqb k' l.
+Proof.
+  intros Hn. induction l as [|[k0 v0] r IH]; simpl.
+  - destruct (String.eqb k' k) eqn:E; [apply String.eqb_eq in E; tauto|reflexivity].
+  - destruct (String.eqb k k0) eqn:E; simpl.
+    + apply String.eqb_eq in E. subst k0.
+      destruct (String.eqb k' k) eqn:E'; [apply String.eqb_eq in E'; tauto|now apply assoc_del_other].
+    + destruct (String.eqb k' k0); [reflexivity|exact IH].
+Qed.
+
+(* a name another key already carries: refused, nothing changes *)
+Theorem map_setitem_rejects st d l k k' s :
+  kmap_of st d = Some l -> In (k', MName s) l -> k' <> k ->
+  exists e, map_setitem st d k (Some s) = (st, RExc e) /\ (e = DupErr \/ e = KVDupErr).
+Proof.
+  intros Hm Hi Hn. unfold map_setitem, put. rewrite Hm. simpl.
+  assert (E : memb mval_eqb (MName s) (map snd (del String.eqb k l)) = true).
+  { apply memb_mval. change (MName s) with (snd (k', MName s)). apply in_map. now apply del_in. }
+  rewrite E. eexists. split; [reflexivity|]. unfold dup_exc. destruct (mems k (map fst l)); auto.
+Qed.
+
+(* otherwise the key now carries the value, where it stood or at the end, and no other key moves *)
+Theorem map_setitem_accepts st d l k v :
+  kmap_of st d = Some l -> (forall k', k' <> k -> ~ In (k', mv k v) l) ->
+  map_setitem st d k v = (set_kmap st d (Some (put_at l k (mv k v))), ROk) /\
+  lookup_map (Some (put_at l k (mv k v))) k = Some (mv k v) /\
+  (forall k', k' <> k -> lookup_map (Some (put_at l k (mv k v))) k' = lookup_map (Some l) k').
+Proof.
+  intros Hm Hfree. unfold map_setitem, put. rewrite Hm.
+  assert (E : memb mval_eqb (mv k v) (map snd (del String.eqb k l)) = false).
+  { destruct (memb mval_eqb (mv k v) (map snd (del String.eqb k l))) eqn:E; [|reflexivity].
+    apply memb_mval, in_map_iff in E as ([k' v'] & Ev & Hi). simpl in Ev. subst v'.
+    apply del_in in Hi as [Hi Hn]. exfalso. exact (Hfree k' Hn Hi). }
+  rewrite E. split; [reflexivity|]. split; [apply assoc_put_at_same|].
+  intros k' Hn. now apply assoc_put_at_other.
+Qed.
+
+(* whatever an in-place edit is given, a refusal leaves the workflow untouched *)
+Theorem map_edit_refused_unchanged st d :
+  (forall k v st' e, map_setitem st d k v = (st', RExc e) -> st' = st) /\
+  (forall k st' e, map_delitem st d k = (st', RExc e) -> st' = st) /\
+  (forall ps st' e, map_update st d ps = (st', RExc e) -> st' = st).
+Proof.
+  unfold map_setitem, map_delitem, map_update. repeat split; intros *.
+  - destruct (kmap_of st d) as [l|]; [|now intros [= <-]].
+    destruct (put l k (mv k v)); [discriminate|now intros [= <-]].
+  - destruct (kmap_of st d) as [l|]; [|now intros [= <-]].
+    destruct (mems k (map fst l)); [discriminate|now intros [= <-]].
+  - destruct (kmap_of st d) as [l|]; [|now intros [= <-]].
+    destruct (put_all l ps); [discriminate|now intros [= <-]].
 Qed.
